@@ -153,6 +153,25 @@ def build_scene(algname, leaves, wrap):
     return alg, subjects, mvs
 
 
+_OPEN = []
+
+
+def open_widget(alg, *subjects, **options):
+    """ipywidgets keeps every widget alive in a global registry until it is closed; the checks create hundreds of thousands."""
+    w = alg.graph(*subjects, **options)
+    _OPEN.append(w)
+    return w
+
+
+def close_widgets():
+    while _OPEN:
+        w = _OPEN.pop()
+        try:
+            w.close()
+        except Exception:
+            pass
+
+
 def coeffs(mv):
     alg = mv.algebra
     out = []
@@ -226,7 +245,7 @@ def check_static(res, algname, leaves, wrap, case):
     res.evals += 1
     desc = f'{algname} scene {leaves} wrap={wrap}'
     try:
-        w = alg.graph(*subjects)
+        w = open_widget(alg, *subjects)
         subs = w.subjects
         key2idx = dict(w.key2idx)
     except Exception as e:
@@ -325,7 +344,7 @@ def drag_bfs(res, algname, leaves, wrap, depth, case0):
                 # replay the path on a fresh scene (live widgets are not copied)
                 alg, subjects, mvs = build_scene(algname, leaves, wrap)
                 try:
-                    w = alg.graph(*subjects)
+                    w = open_widget(alg, *subjects)
                     ok = True
                     for step, (p, v) in enumerate(path):
                         ok = apply_drag(res, w, alg, subjects, mvs, p, v, desc, case, check=(step == len(path) - 1), leaves=leaves)
@@ -335,6 +354,7 @@ def drag_bfs(res, algname, leaves, wrap, depth, case0):
                     res.violate(violation(f'drag:raises:{type(e).__name__}', f'{desc}: drag sequence {path} raises {type(e).__name__}: {e}', case, '', repr(e)))
                     ok = False
                 res.transitions += 1
+                close_widgets()
                 if not ok:
                     continue
                 k = snapshot(mvs)
@@ -399,6 +419,7 @@ def run_shard(shard):
     if shard.get('kind') == 'describe':
         for a in shard['seq']:
             check_static(res, a, ['mv:point:list', 'int'], 'plain', {'alg': a, 'leaves': ['mv:point:list', 'int'], 'wrap': 'plain', 'depth': 0, 'describe_seq': shard['seq']})
+        close_widgets()
         d = res.asdict()
         d['traces'] = d['transitions']
         return d
@@ -412,17 +433,19 @@ def run_shard(shard):
                 drag_bfs(res, algname, leaves, wrap, depth if wrap == 'plain' else 1, case)
             else:
                 check_static(res, algname, leaves, wrap, case)
+            close_widgets()
     # camera option
     alg = mkalg(algname)
     cam = make_mv(alg, 'permuted', 'list', 3)
     res.evals += 1
     try:
-        w = alg.graph(0xFF, camera=cam)
+        w = open_widget(alg, 0xFF, camera=cam)
         c = decode(w.options['camera'], dict(w.key2idx))
         if not same(c, elem_of(cam)):
             res.violate(violation('camera', f'{algname}: options.camera does not decode to the multivector given', {'alg': algname, 'leaves': [], 'wrap': 'camera', 'depth': 0}, short(elem_of(cam)), short(c)))
     except Exception as e:
         res.violate(violation('camera:raises', f'{algname}: camera option: {type(e).__name__}: {e}', {'alg': algname, 'leaves': [], 'wrap': 'camera', 'depth': 0}, '', repr(e)))
+    close_widgets()
     d = res.asdict()
     d['traces'] = d['transitions']
     return d
